@@ -139,6 +139,11 @@ func ruleTXPAIRING(p *Program, rep *Report) {
 		}
 		sort.Strings(stored)
 		stored = uniq(stored)
+		for _, ar := range in.reports {
+			if ar.Kind == "NESTED-TX" {
+				rep.Bad("NESTED-TX", key+"|"+ar.Fn, ar.Pos, ar.Msg, "via "+strings.Join(ar.Chain, ">"))
+			}
+		}
 		if len(leaks) > 0 {
 			sort.Strings(leaks)
 			leaks = uniq(leaks)
@@ -160,6 +165,52 @@ func ruleTXPAIRING(p *Program, rep *Report) {
 			continue
 		}
 		rep.OK("TX-PAIRING", key, pos, fmt.Sprintf("%d exit class(es), every begun transaction finished", len(exits)))
+	}
+	ruleNESTEDTX(p, rep, voc, fileBegins)
+}
+
+// ruleNESTEDTX: while a Reader holds its transaction (between Begin and Done), none of its methods may
+// begin another one; likewise no queue function begins a transaction while it still holds one.
+func ruleNESTEDTX(p *Program, rep *Report, voc *locksVocab, fileBegins map[*ssa.Function]bool) {
+	rep.Rule("NESTED-TX", 3, "no queue function begins a transaction while its role already holds an open one (Reader methods between Begin and Done in particular): a nested read transaction deadlocks with a commit that is pending on the outer transaction")
+	for _, fn := range methodsOf(p, "pq", "Reader", true) {
+		if nameIn(fn.Name(), "Begin", "Done") {
+			continue
+		}
+		pl := newLocksPlugin(voc, "pq")
+		pl.pqLevel = true
+		pl.fileBegins = fileBegins
+		in := newInterp(p, pl)
+		failed := ""
+		func() {
+			defer func() {
+				if e := recover(); e != nil {
+					failed = fmt.Sprintf("%v", e)
+				}
+			}()
+			prop := newLockProp()
+			prop.n["pqtx-owned"] = 1
+			st := newState(prop)
+			in.applyScenario(st, scenario{consts: map[string]Value{"pq.Reader.active": constBool(true)}})
+			in.Run(fn, recvArgs(in, fn, PtrV{cell: in.singleton(p.Named("pq", "Reader"))}), st)
+			failed = in.failed
+		}()
+		rep.Analysed(in.enteredNames()...)
+		key := "Reader." + fn.Name() + "[tx open]"
+		if failed != "" {
+			rep.Unknown("NESTED-TX", key, p.Pos(fn.Pos()), "analysis did not complete: "+failed)
+			continue
+		}
+		bad := false
+		for _, ar := range in.reports {
+			if ar.Kind == "NESTED-TX" {
+				bad = true
+				rep.Bad("NESTED-TX", key+"|"+ar.Fn, ar.Pos, ar.Msg, "via "+strings.Join(ar.Chain, ">"))
+			}
+		}
+		if !bad {
+			rep.OK("NESTED-TX", key, p.Pos(fn.Pos()), "no transaction begun while the reader's transaction is open")
+		}
 	}
 }
 
